@@ -157,6 +157,24 @@ def rendered(x):
     return out
 
 
+def two_defects(rng):
+    """one input port offering two capabilities with two DIFFERENT defects: on the route of the first capability two units
+    hold the same lock (PathLockError), the second capability is accepted by no successor (BlockedCapError).  Which one is
+    reported must not depend on the hash seed (seeded changes C20-7 / C20-9: capabilities kept in a frozenset)."""
+    a, b = rng.sample(["ALU", "MEM", "BR", "FPU", "ADD", "LW"], 2)
+    extra = rng.choice(["readLock", "writeLock"])
+    caps = [a, b] if rng.random() < 0.5 else [b, a]
+    # capability a: in0 -> mid -> out with a second `extra` lock in mid (PathLockError); capability b: correctly locked in
+    # in0 but supported by no successor, and in0 is not an output port (BlockedCapError)
+    us = [{"name": "in0", "width": 1, "capabilities": caps, "readLock": True, "writeLock": True},
+          {"name": "mid", "width": 1, "capabilities": [a], extra: True},
+          {"name": "out", "width": 1, "capabilities": [a]}]
+    if rng.random() < 0.5:
+        us.append({"name": "side", "width": 2, "capabilities": [a, b], "readLock": True, "writeLock": True})
+    rng.shuffle(us)
+    return {"desc": {"units": us, "dataPath": [["in0", "mid"], ["mid", "out"]]}, "isa": [], "lines": []}
+
+
 def twin_of(rng, x):
     y = copy.deepcopy(x)
     us = y["desc"]["units"]
@@ -381,7 +399,10 @@ def pipeline(x, upto="sim"):
     # the same hardware object used again: for an unrelated program ending in a stall error, then for this program again
     # ("repeated calls in one process ... return structurally equal results")
     from program_defs import HwInstruction
-    reused = comp_sim.run_impl(proc, comp, history=[comp, [HwInstruction([], "R0", "no such capability")] + list(comp)])
+    # (the first program the hardware object ever sees is a DIFFERENT one: seeded change C20-10 kept the sinks of the first
+    # program in the HwSpec)
+    reused = comp_sim.run_impl(proc, comp, history=[list(reversed(comp))[: max(1, len(comp) - 1)], comp,
+                                                    [HwInstruction([], "R0", "no such capability")] + list(comp)])
     if reused != impl:
         res["reused_spec_differs"] = True
     unchanged("processor (after simulate)", res["proc_exact"], comp_sim.proc_json(proc))
@@ -651,6 +672,8 @@ def run_case(case, tier="quick") -> dict:
         xs[3] = {"desc": desc, "isa": [], "lines": []}
     if rng.random() < 0.3:
         xs[2] = to_non_ascii(rng, xs[2])     # metamorphic C13 oracle beyond ASCII (the model is skipped for it)
+    elif rng.random() < 0.5:
+        xs[2] = two_defects(rng)
     for i, x in enumerate(xs):
         x["seed"] = f"{core.base_seed()}:{case}:{i}"
     # the CLI subprocess is slow: one per batch in the quick tier, all in the thorough tier
